@@ -104,6 +104,9 @@ func rewardProfile() chain.Profile {
 
 // cfgFor returns the config overrides a profile needs (trace i of the batch).
 func cfgFor(profile string, i int) map[string]interface{} {
+	if profile == "fault" {
+		return map[string]interface{}{"fishmen": []string{"a05", "a06"}}
+	}
 	if profile == "reward" {
 		if i%3 == 2 {
 			// below the baseline: the per-block reward is capped by pledged * apy / (halving/2)
@@ -128,6 +131,21 @@ func versionProfile() chain.Profile {
 	p.ForcePush = 50
 	p.Replicas = []int64{1, 1, 2}
 	p.ShortBlocks = true
+	return p
+}
+
+// faultProfile: fishmen, ordinary nodes and outsiders file, confirm and clear fault reports with matching
+// and mismatching contents; providers declare recovery; shards expire under open reports.
+func faultProfile() chain.Profile {
+	p := payProfile()
+	p.Name = "fault"
+	p.Nodes = []string{"a01", "a02", "a03", "a04", "a05", "a06"}
+	p.Weights = map[string]int{"Blocks": 12, "StoreNew": 10, "StoreUpdate": 3, "Complete": 40, "ReportFaults": 20, "RecoverFaults": 16,
+		"Terminate": 1, "Claim": 2, "Renew": 2, "Migrate": 2, "Reset": 1}
+	p.Sizes = []int64{1000, 5000}
+	p.Durs = []int64{3600}
+	p.Timeouts = []int64{20, 1800}
+	p.MaxData = 3
 	return p
 }
 
@@ -183,6 +201,8 @@ func profileByName(n string) chain.Profile {
 		return superProfile()
 	case "version":
 		return versionProfile()
+	case "fault":
+		return faultProfile()
 	case "did":
 		p := payProfile()
 		p.Name = "did"
